@@ -457,6 +457,18 @@ func genBip39(g *Gen) {
 		emitEnc("enc-leading-zero", e)
 		emitSentence("sentence-leading-zero", mustEnc(e))
 	}
+	// every word count 0..30 (acceptance must depend on the count exactly as BIP-39 says)
+	for k := 0; k <= 30; k++ {
+		ws := make([]string, k)
+		for j := range ws {
+			ws[j] = "abandon"
+		}
+		emitSentence("count-sweep", strings.Join(ws, " "))
+		for j := range ws {
+			ws[j] = list[(j*97+k*13)%len(list)]
+		}
+		emitSentence("count-sweep", strings.Join(ws, " "))
+	}
 	// 3. illegal entropy sizes
 	for _, n := range []int{0, 1, 4, 8, 12, 15, 17, 19, 21, 31, 33, 36, 40, 48, 64} {
 		emitEnc("enc-badlen", randEnt(n))
